@@ -13,6 +13,7 @@ import (
 	"os"
 	"regexp"
 	"strconv"
+	"time"
 
 	"github.com/alttpo/snes/emulator"
 )
@@ -20,6 +21,7 @@ import (
 type evLogger struct {
 	emit func(map[string]interface{})
 	sys  *emulator.System
+	lost *bool
 }
 
 var reLinePC = regexp.MustCompile(`([0-9a-f]{2}):([0-9a-f]{4})`)
@@ -32,8 +34,11 @@ func (l *evLogger) Write(p []byte) (int, error) {
 		o, _ := strconv.ParseInt(string(m[2]), 16, 32)
 		pc = int(b)<<16 | int(o)
 	}
-	if pc < 0x8000 || pc >= 0x8400 {
-		l.emit(map[string]interface{}{"k": "lost"}) // execution left the observed program area: the run is not judged further
+	if !inObserved(pc) {
+		if !*l.lost {
+			l.emit(map[string]interface{}{"k": "lost"}) // execution left the observed program area: the run is not judged further
+			*l.lost = true
+		}
 		return len(p), nil
 	}
 	l.emit(map[string]interface{}{"k": "log", "pc": pc, "all": int(l.sys.CPU.AllCycles)})
@@ -50,6 +55,11 @@ func (l *evLoggerRC) Reserve(n int) { l.reserved += n }
 func (l *evLoggerRC) Commit()       { l.commits++ }
 
 type abortRun struct{}
+
+// the observed program areas: $00:8000-$83FF (ROM) and the last 16 bytes of SRAM bank $70
+func inObserved(pc int) bool {
+	return (pc >= 0x8000 && pc < 0x8400) || (pc >= 0x707FF0 && pc <= 0x707FFF)
+}
 
 func init() {
 	register("run", func(args []string) error {
@@ -79,8 +89,12 @@ func init() {
 		steps := 0
 		limit := 0
 		quiet := false
+		hung := false
 		s.CPU.OnPC = map[uint32]func(){}
-		for a := uint32(0x8000); a < 0x8400; a++ {
+		for a := uint32(0x8000); a < 0x708000; a++ {
+			if a == 0x8400 {
+				a = 0x707FF0
+			}
 			a := a
 			s.CPU.OnPC[a] = func() {
 				steps++
@@ -97,7 +111,8 @@ func init() {
 				emit(map[string]interface{}{"k": "wdm", "v": int(v)})
 			}
 		}
-		lg := &evLogger{emit: emit, sys: s}
+		lostFlag := false
+		lg := &evLogger{emit: emit, sys: s, lost: &lostFlag}
 		for i := 0; i < n; i++ {
 			// program at $00:8000 (ROM[0:]), instruction starts recorded
 			for j := 0; j < 0x400; j++ {
@@ -175,8 +190,20 @@ func init() {
 			for j := 0; j < pc+2; j++ {
 				prog = append(prog, [2]int{0x8000 + j, int(s.ROM[j])})
 			}
+			sramEnd := i%8 == 7
+			if sramEnd {
+				// a short loop whose last instruction ends exactly at $70:7FFF; $70:8000+ is ROM-less (unmapped) in this System
+				tail := []byte{0xE8, 0xEA, 0xCA, 0x80, 0xFB} // INX NOP DEX BRA -5
+				copy(s.SRAM[0x8000-len(tail):0x8000], tail)
+				for j, b := range tail {
+					prog = append(prog, [2]int{0x708000 - len(tail) + j, int(b)})
+				}
+			}
 			// start, target, budget
 			start := starts[r.Intn(len(starts))]
+			if sramEnd {
+				start = 0x707FFB
+			}
 			var target int
 			switch r.Intn(6) {
 			case 0:
@@ -209,6 +236,9 @@ func init() {
 				for j := range s.SRAM {
 					s.SRAM[j] = byte(j * 7)
 				}
+				if sramEnd {
+					copy(s.SRAM[0x8000-5:0x8000], []byte{0xE8, 0xEA, 0xCA, 0x80, 0xFB})
+				}
 				s.CPU.Reset()
 				s.CPU.E = 0
 				s.CPU.SetFlags(0x34)
@@ -230,23 +260,35 @@ func init() {
 					s.Logger = nil
 				}
 				steps, limit = 0, budget+3
+				lostFlag = false
 				if observe {
 					emit(map[string]interface{}{"k": "begin", "target": target, "budget": budget, "pc": start, "all": int(s.CPU.AllCycles),
 						"logging": withLogger, "prog": prog})
 				}
 				var fin finalT
-				func() {
+				done := make(chan struct{})
+				go func() {
+					defer close(done)
 					defer func() {
 						if e := recover(); e != nil {
 							if _, ok := e.(abortRun); ok {
 								fin.Aborted = true
 							} else {
-								fin.Crashed = true // e.g. an access to an unmapped bus address: outside the property's domain
+								fin.Crashed = true // e.g. an access to an unmapped bus address
 							}
 						}
 					}()
 					fin.Result = s.RunUntil(uint32(target), uint64(budget))
 				}()
+				select {
+				case <-done:
+				case <-time.After(3 * time.Second):
+					// RunUntil does not return (and does not even reach an OnPC callback): report and stop recording --
+					// the stuck goroutine cannot be killed, so the remaining runs are skipped
+					emit(map[string]interface{}{"k": "abort", "pc": -1, "all": -1, "hung": true})
+					hung = true
+					return fin
+				}
 				fin.St = projPri(&s.CPU)
 				fin.All = int(s.CPU.AllCycles)
 				var h int64
@@ -269,9 +311,15 @@ func init() {
 				return fin
 			}
 			f1 := runOnce(logging, true)
+			if hung {
+				break
+			}
 			// the same run with the opposite tracing setting, unobserved: tracing must not perturb execution (C14)
 			f2 := runOnce(!logging, false)
-			if !f1.Crashed && !f2.Crashed {
+			if hung {
+				break
+			}
+			if !f1.Crashed || !f2.Crashed { // both crashing (unmapped access by the program itself) is outside the domain
 				wl, wo := f1, f2
 				if !logging {
 					wl, wo = f2, f1
